@@ -300,8 +300,8 @@ pub fn k_air_ood_frame_parse() {
 
 // Queries::parse is not under contract here: its inputs are heap vectors whose lengths the model
 // checker cannot keep concrete (symbolic execution does not terminate within 15 minutes even for a
-// 20-byte instance); its callees Table::from_bytes and BatchMerkleProof::read_from are under
-// contract separately (below and in the crypto unit).
+// 20-byte instance); its callee Table::from_bytes is under contract below; BatchMerkleProof::read_from
+// is not (see the note in the c19_merkle unit), only its component decoders are (c26_serde unit).
 
 //# harness: fn=Table::from_bytes; label=complete in (rows, cols) over the sizes an honest prover can produce (1..=255 each); tier=quick; props=C01,C05
 #[cfg_attr(kani, kani::proof)]
